@@ -117,6 +117,8 @@ theorem onLrIsPreserved_swap (jt : JoinType) :
   cases jt <;> rfl
 
 /-! ### a defect found by the correspondence: `SymmetricHashJoinExec` under NULL = NULL
+  (pinned upstream code; repaired in /repo by `fix:` commit b4ab834, which zeroes the buffer for every
+  batch — the model below documents the upstream behaviour)
 
   `OneSideHashJoiner::update_internal_state` calls `hashes_buffer.resize(n, 0)` WITHOUT clearing
   the buffer and `create_hashes` leaves the slots of NULL keys untouched (C12: a NULL row keeps the
@@ -140,7 +142,8 @@ def shjLookupHash (h : Int → Nat) : Val → Nat
 /-- **Witness.** The NULL key of the second batch is inserted under hash `h 5` but looked up
     under hash 0, although `NULL = NULL` is a match under `NullEqualsNull`; with the same rows in
     one batch the hashes agree.  Hence the operator's result depends on the input batching — the
-    property is FALSE for `SymmetricHashJoinExec` (reproduced on the real code, notes/C05.md).
+    property was FALSE for the upstream `SymmetricHashJoinExec` (reproduced on the real code before
+    b4ab834, notes/C05.md).
     `hashJoin_refines` above is the part of the property that is proved (`HashJoinExec`). -/
 theorem symmetricHashJoin_null_equal_batching_witness :
     let h : Int → Nat := fun _ => 7
